@@ -7,6 +7,4 @@ type CompCase struct{}
 func (c *CompCase) size() int { return 0 }
 
 func genComponent(prop string, seed uint64, g *gen, thorough bool) *Case { return nil }
-func genRecover(seed uint64, g *gen, thorough bool) *Case                { return nil }
 func runComponent(t *testing.T, c *Case, out *RunOut, wantTrace bool)    {}
-func (r *runner) mainRecover()                                           {}
